@@ -8,7 +8,11 @@
    (absent, empty, any bytes)" is the quantification over the initial file system l.
 
    What is proved:
-     - one run: old content ++ "\n" ++ key text (or the key text alone when F was absent); no other path changes;
+     - one run: old content ++ "\n" ++ key text (or the key text alone when F was absent); fs_get sees a regular file
+       THROUGH a path string of the tree world (Model/Cli.v: directories, ".", "..", absolute and relative spellings), so
+       "F was absent" is "no regular file is seen through F"; no file changes that is not the one F denotes (every path
+       string q with another resolution target shows the same bytes), no path string changes its meaning, no node other
+       than F's changes; a run whose -o path cannot be created fails and changes nothing (C13_gen_key_bad_output);
      - any history: every earlier content of F is a byte PREFIX of every later content; exact content of F;
      - the file reads back (`-k F`, the model of Keyring::parse_config) as the old entries followed by the generated
        ones — first with abstract validators and the premise that the entries are well formed, then
@@ -20,7 +24,7 @@
    morphism, decoding inverts encoding); random blocks are byte strings (bytes_ok); generated names contain no
    newline and names / public keys are pairwise distinct (the property's "distinct names"; distinct public keys =
    distinct private keys drawn); prims_bytes_ok (primitives return bytes; proved for the RFC instance:
-   KeyringFacts.rfc_prims_bytes_ok).  Not covered: a terminal (prompted passwords), real file-system errors. *)
+   KeyringFacts.rfc_prims_bytes_ok).  Not covered: a terminal (prompted passwords), file-system errors other than a path that cannot be created (permissions, full disk), links. *)
 From Kestrel Require Import Bytes Outcome IO Prims.
 From Kestrel.Spec Require Import Base64.
 From Kestrel.Model Require Import KeyringText Cli CliStubs CliGlue.
@@ -42,10 +46,14 @@ Theorem C14_gen_preserves_prefix :
            | Some c0 => c0 ++ key_bytes_nl utf8_encode key_text
            | None => key_bytes utf8_encode key_text
            end /\
-    (forall q, q <> F -> fs_get (new_fs (cmd_gen_key P lock encode_pk utf8_decode utf8_encode w o sk salt)) q
-                         = fs_get (fs w) q) /\
+    (forall q, fs_target (fs w) q <> fs_target (fs w) F ->
+               fs_get (new_fs (cmd_gen_key P lock encode_pk utf8_decode utf8_encode w o sk salt)) q = fs_get (fs w) q) /\
     stdout (cmd_gen_key P lock encode_pk utf8_decode utf8_encode w o sk salt) = [] /\
-    status (cmd_gen_key P lock encode_pk utf8_decode utf8_encode w o sk salt) = SOk.
+    status (cmd_gen_key P lock encode_pk utf8_decode utf8_encode w o sk salt) = SOk /\
+    (forall q, fs_target (new_fs (cmd_gen_key P lock encode_pk utf8_decode utf8_encode w o sk salt)) q = fs_target (fs w) q) /\
+    exists cp, fs_create_target (fs w) F = Some cp /\
+      forall cq, cq <> cp -> node_at (new_fs (cmd_gen_key P lock encode_pk utf8_decode utf8_encode w o sk salt)) cq
+                             = node_at (fs w) cq.
 Proof. exact gen_preserves_prefix. Qed.
 Print Assumptions C14_gen_preserves_prefix.
 
@@ -84,7 +92,8 @@ Theorem C14_gen_history_content :
          (F : text) (ins : list gen_input) (l l' : fsys) (ks : list text),
   gen_history P lock encode_pk utf8_decode utf8_encode F l ins = Some (l', ks) ->
   fs_get l' F = history_content utf8_encode (fs_get l F) ks /\
-  (forall q, q <> F -> fs_get l' q = fs_get l q).
+  (forall q, fs_target l q <> fs_target l F -> fs_get l' q = fs_get l q) /\
+  (forall q, fs_target l' q = fs_target l q).
 Proof. exact gen_history_content. Qed.
 Print Assumptions C14_gen_history_content.
 
